@@ -223,7 +223,8 @@ package shmipc
 // with nil (checked at every store and at the end of every function that allocates the object).
 //@ nonnil Stream.session, Stream.recvBuf, Stream.sendBuf, Stream.pendingData
 //@ nonnil linkedBuffer.sliceList, linkedBuffer.pinnedList
-//@ nonnil Session.logger, Session.config
+//@ nonnil-elems Session.streams
+//@ nonnil Session.logger, Session.config, Session.shutdownCh
 //@ nonnil queueManager.sendQueue, queueManager.recvQueue
 //@ nonnil queue.head, queue.tail, queue.workingFlag
 //@ nonnil bufferList.size, bufferList.cap, bufferList.head, bufferList.tail, bufferList.capPerBuffer, bufferList.counter
@@ -369,3 +370,44 @@ package shmipc
 //@   requires sm != nil
 //@   trusted  body runs under defer/recover (not modelled); session-manager logic belongs to C16/C17
 //@   modifies heap
+
+//@ nonnil protocolAdaptor.session, protocolInitializerV2.session, protocolInitializerV3.session
+
+// the protocol initialisers are reached through the protocolInitializer interface from initProtocol;
+// on the server side firstEvent is the 8-byte header read by serverGetProtocolInitializer
+//@ func (*protocolInitializerV2).Init
+//@   requires !p.session.isClient ==> len(p.firstEvent) >= 8
+//@   requires p.session.isClient ==> p.session.queueManager != nil && p.session.bufferManager != nil && len(p.session.queueManager.path) < 65536 && len(p.session.bufferManager.path) < 65536
+//@   modifies heap
+
+//@ func (*protocolInitializerV3).serverInit
+//@   requires len(p.firstEvent) >= 8
+//@   modifies heap
+
+//@ func (*protocolInitializerV3).clientInit
+//@   requires p.session.queueManager != nil && p.session.bufferManager != nil && len(p.session.queueManager.path) < 65536 && len(p.session.bufferManager.path) < 65536
+//@   modifies heap
+
+//@ func (*Session).generateShmMetadata
+//@   requires s.queueManager != nil && s.bufferManager != nil
+//@   requires len(s.queueManager.path) < 65536 && len(s.bufferManager.path) < 65536   // the wire format carries uint16 lengths
+//@   ensures  len(data) >= 8
+//@   modifies nothing
+
+// entry point of the event phase: the event loop hands over the unconsumed receive window
+//@ func (*Session).onEventData
+//@   requires s.shutdown != 1 ==> sessOK(s)
+//@   requires conn != nil
+//@   modifies heap
+
+// C18: the receive window of the event connection
+//@ pure wfConn(c *connEventHandler): bool = 0 <= c.readStartOff && c.readStartOff <= c.readEndOff && c.readEndOff <= len(c.readBuffer) && len(c.readBuffer) >= 1
+
+//@ func (*connEventHandler).commitRead
+//@   ensures  old(wfConn(c)) && 0 <= n && n <= old(c.readEndOff - c.readStartOff) ==> wfConn(c)
+//@   ensures  old(wfConn(c)) && 0 <= n && n < old(c.readEndOff - c.readStartOff) ==> c.readStartOff == old(c.readStartOff) + n && c.readEndOff == old(c.readEndOff) && c.readBuffer == old(c.readBuffer)
+//@   ensures  old(wfConn(c)) && n == old(c.readEndOff - c.readStartOff) ==> c.readStartOff == 0 && c.readEndOff == 0 && sameMem(c.readBuffer, old(c.readBuffer), 0)
+//@   modifies c.readStartOff, c.readEndOff, c.readBuffer
+
+//@ func createProtoVersionInitializer
+//@   requires session != nil
